@@ -573,6 +573,7 @@ func (w *walker) stmt(s ast.Stmt, st lockState) lockState {
 	case *ast.LabeledStmt:
 		st = w.stmt(x.Stmt, st)
 	case *ast.SendStmt:
+		w.noteWait("send", squash(w.la.p.src(x.Chan)), st, x.Pos())
 		w.expr(x.Chan, st)
 		w.expr(x.Value, st)
 	}
